@@ -201,6 +201,17 @@ def main():
             else:
                 props.run_corpus(ctx, spec)
                 spec["run"](ctx)
+                # 5b witness search: inputs on which the current tree and the pinned reference copy differ (coverage-guided
+                # differential fuzzing) are decided by this property's spec oracles; nothing happens on an unchanged tree
+                if "fuzz" in spec:
+                    try:
+                        import fuzzsearch
+                        cands, note = fuzzsearch.fuzz_candidates(tier, log)
+                    except Exception as e:  # noqa
+                        cands, note = {}, "fuzz search: failed to run (%s); skipped" % e
+                    ctx.notes.append(note)
+                    if any(cands.values()):
+                        spec["fuzz"](ctx, cands)
         if not tr_ok:
             ctx.tie_failures.append({"stream": "translator", "case": "; ".join(tr_errs)[:2000]})
         if not dump_ok:
